@@ -12,6 +12,10 @@ C07 — model of the filter registry and of the content filters.
     function that keeps exactly the lines containing some pattern (ASSUMPTION about grep, validated by
     the correspondence run against the real binary).
 
+(c) loading: every branch of `TextFileProvider.load()` / `_stream()` (spec_factory.py 284-330): grep on a
+    host, whole-file read, truncated read of the last MAX_CONTENT_SIZE bytes (`readLines`), post-filter
+    off-host (`loadFile`, `streamFile`); and repeated loads of one datasource (`loadArchive`).
+
 Strings are `List Char`; a Python `dict` is an insertion-ordered association list; Python `set`
 iteration order is whatever order the lists in the `World` carry (the harness sends the order the real
 sets iterate in; the theorems hold for every order).
@@ -351,5 +355,40 @@ of the allow-list, so the only trace a load leaves is the look-up's cache entry.
 def loadArchive (w : World) (st : State) (ds : Comp) (file : List Str) : State × List Str :=
   let r := getFilters w st ds
   (r.1, providerContent grepF false true r.2.1 file)
+
+/-! ### every branch of `TextFileProvider.load()` / `_stream()` (spec_factory.py 284-330) -/
+
+/-- bytes of one line on disk: its UTF-8 encoding plus the newline (files whose every line ends in `\n`) -/
+def lineBytes (l : Str) : Nat := (l.map Char.utf8Size).sum + 1
+
+/-- lines lost by `f.seek(off)` + "discard the first line which is broken": the line the offset falls
+into is dropped whole — also when the offset is exactly its first byte -/
+def dropCount : List Nat → Nat → Nat
+  | [], _ => 0
+  | s :: rest, off => if off < s then 1 else 1 + dropCount rest (off - s)
+
+/-- is the file above `MAX_CONTENT_SIZE` (the truncated-read branch)? -/
+def isHuge (maxSize : Nat) (ls : List Str) : Bool := decide ((ls.map lineBytes).sum > maxSize)
+
+/-- what the open()-branch of `load()` reads: the whole file, or for a file above `maxSize`
+(= MAX_CONTENT_SIZE) the complete lines inside its last `maxSize` bytes -/
+def readLines (maxSize : Nat) (ls : List Str) : List Str :=
+  if isHuge maxSize ls then ls.drop (dropCount (ls.map lineBytes) ((ls.map lineBytes).sum - maxSize)) else ls
+
+/-- `TextFileProvider.load()`, all branches: grep on a host with filters (whole file, never
+truncated); otherwise read (whole / tail) and, off-host with filters, post-filter -/
+def loadFile (grep : List Str → List Str → List Str) (maxSize : Nat) (host : Bool) (fs : Allow)
+    (file : List Str) : List Str :=
+  if host && !fs.isEmpty then grep (keys fs) file
+  else if !host && !fs.isEmpty then filterContent (readLines maxSize file) fs
+  else readLines maxSize file
+
+/-- `provider.stream()`: the loaded content when there is a non-empty one; otherwise grep on a host
+with filters; otherwise the file as it is — NOT truncated and NOT post-filtered (as the code is) -/
+def streamFile (grep : List Str → List Str → List Str) (maxSize : Nat) (host loaded : Bool) (fs : Allow)
+    (file : List Str) : List Str :=
+  if loaded && !(loadFile grep maxSize host fs file).isEmpty then loadFile grep maxSize host fs file
+  else if host && !fs.isEmpty then grep (keys fs) file
+  else file
 
 end IV.Filters
